@@ -10,21 +10,33 @@ without the Go heap growing by more than a constant plus a constant times M."""
 from . import common, ctxlib, luaquota
 from .luaquota import HUGE
 
-KEY_CORO = "mem-release-underflow:coroutine-finished-in-inner-context"
-KEY_LOAD = "mem-release-underflow:load-compile-error-double-release"
 
+KEY_STALE = "kill-intercepted-after-cross-frame-release:memory"
+
+# (name, known-finding key of the defect the probe exhibits on the current code or None, program, limit, expected status)
 PROBES = [
-    ("probe:coroutine-across-callcontext", KEY_CORO,
+    ("probe:coroutine-across-callcontext", None,
      "local co = coroutine.create(function() coroutine.yield(1) return 2 end)\ncoroutine.resume(co)\n"
-     "local function body() emit(coroutine.resume(co)) return 'R' end\n", 1000000),
-    ("probe:coroutine-across-pcall", KEY_CORO,
-     "local function body() local co = coroutine.wrap(function() return 2 end) emit(pcall(co)) return 'R' end\n", 1000000),
-    ("probe:load-compile-error", KEY_LOAD,
+     "local function body() emit(coroutine.resume(co)) return 'R' end\n", 1000000, "done"),
+    ("probe:coroutine-across-pcall", None,
+     "local function body() local co = coroutine.wrap(function() return 2 end) emit(pcall(co)) return 'R' end\n", 1000000, "done"),
+    ("probe:coroutine-across-two-pcalls", None,
+     "local function body() local co = coroutine.wrap(function() coroutine.yield(1) return 2 end) co() "
+     "local u0 = runtime.context().used.memory pcall(function() pcall(function() co() end) end) "
+     "emit(runtime.context().used.memory < u0) return 'R' end\n", 1000000, "done"),
+    ("probe:load-compile-error", None,
      "local src = 'goto nowhere' .. (' '):rep(2000)\n"
-     "local function body() for i = 1, 10 do emit(i, (load(src))) end return 'R' end\n", 1000000),
+     "local function body() for i = 1, 10 do emit(i, (load(src))) end return 'R' end\n", 1000000, "done"),
     ("probe:pcall-rep", None,
      "local function body() local ok, msg = P(string.rep, 'x', 1000000) emit('after', ok) "
-     "local t = {} for i = 1, 100 do t[i] = i end emit('continued') return 'R' end\n", 100000),
+     "local t = {} for i = 1, 100 do t[i] = i end emit('continued') return 'R' end\n", 100000, "killed"),
+    # a coroutine created in the limited context and finished inside pcall releases its stack charge into the
+    # enclosing context (8007e69); the pcall context keeps its now too small inherited limit, a request it
+    # refuses is not propagated (0426709 tests equality) and Lua code sees the error
+    ("probe:stale-limit", KEY_STALE,
+     "local function body() local co = coroutine.wrap(function() return 1 end) "
+     "local ok, msg = P(function() co() local s = string.rep('x', 1500) return #s end) emit('after', ok) "
+     "local t = string.rep('y', 1800) emit('continued', #t) return 'R' end\n", 3800, "killed"),
 ]
 
 # amplification: one call whose allocation depends on N, under a small memory limit
@@ -131,7 +143,7 @@ def lua_leg(ctx, binpath, nprog):
         body = g.body()
         progs.append(("g%d" % k, "+".join(g.tags), "local function body()\n  " + body + "\n  return 'R'\nend\n"))
     # probes first, each in its own process (they may kill it)
-    for name, key, src, lim in PROBES:
+    for name, key, src, lim, want in PROBES:
         res = luaquota.run_batch(binpath, [(name, wrap(src, lim)), (name + ":after", "emit('alive')")])
         r = res.get(name)
         ctx.case(name, True)
@@ -139,15 +151,20 @@ def lua_leg(ctx, binpath, nprog):
         replay = "c06 lua\n" + wrap(src, lim)
         text = luaquota.msg_of(r)
         if r.cls in ("crash", "panic") and "Too much mem released" in text:
-            ctx.violation(key or ("mem-release-underflow:" + name), "panic: Too much mem released — the %s (%s)" % (
+            ctx.violation("mem-release-underflow:" + name, "panic: Too much mem released — the %s (%s)" % (
                 "whole process died" if r.cls == "crash" else "panic escaped the Lua call", name), replay)
         elif r.cls != "ok":
             ctx.violation("runner-%s:memory:%s" % (r.cls, name), "probe ended with %s (%s)" % (r.cls, r.ret), replay)
-        elif name == "probe:pcall-rep" and r.status != "killed":
-            ctx.violation("probe-not-killed:memory:" + name, "expected status killed, got %s" % r.status, replay)
         elif r.intercepted:
-            ctx.violation("kill-intercepted:memory:" + name, "Lua code received the memory kill as an ordinary pcall error and went "
-                          "on running in the limited context (%s, limit %d); final status %s" % (name, lim, r.status), replay)
+            ctx.violation(key or ("kill-intercepted:memory:" + name), "Lua code received the memory kill as an ordinary pcall "
+                          "error and went on running in the limited context (%s, limit %d); final status %s" % (name, lim, r.status), replay)
+        elif r.status != want:
+            ctx.violation("probe-status:memory:" + name, "expected status %s, got %s" % (want, r.status), replay)
+        elif name == "probe:coroutine-across-two-pcalls" and r.body != ["t"]:
+            ctx.violation("release-not-returned-to-creator:" + name, "the stack charge of a coroutine finished two pcall levels "
+                          "down was not given back to the context that created it (trace %s)" % r.body, replay)
+        elif r.umem is not None and r.umem >= lim:
+            ctx.violation("used-reaches-kill:memory:" + name, "ctx.used.memory=%d with kill.memory=%d" % (r.umem, lim), replay)
     batch = []
     for pid, tags, src in progs:
         batch.append((pid + ":u", wrap(src, HUGE)))
@@ -292,6 +309,7 @@ def run(ctx):
         ctxlib.flat_leg(ctx, h, ["rand", "30000"], "rand")
     else:       # a third of the depth-3 enumeration (C07 runs all of it), chosen by the seed
         ctxlib.flat_leg(ctx, h, ["exh", "3", str(ctx.seed % 3), "3"], "exh3/3")
+        ctxlib.flat_leg(ctx, h, ["rand", "3000"], "rand")      # cross-context releases need depth >= 4
     ctx.log("Lua-level sweep")
     runner = common.build_go("c05", "cmd/c05")
     lua_leg(ctx, runner, 300 if ctx.tier == "thorough" else 40)
